@@ -486,6 +486,70 @@ fn run_sched(sc: &Value, t: &mut Tracer) {
 	t.ev(json!({"a": "end"}));
 }
 
+/// mode "pickup" (PickUpOrder.tla, edge mixer -> clocks): the audio thread is stopped before the n-th drain of a ring of
+/// new resources within one callback; the gameplay thread creates a clock, starts it and plays a sound scheduled for its
+/// tick 1; the callback goes on.  A sound picked up before its clock would find no clock and be cancelled for good.
+fn run_pickup(sc: &Value, t: &mut Tracer) {
+	let n = sc["n"].as_u64().unwrap();
+	t.reset(json!({"mode": "pickup", "what": "sound", "w": 1, "n": n, "src": sc["src"]}));
+	let mut manager = AudioManager::<VBackend>::new(AudioManagerSettings {
+		capacities: Capacities::default(),
+		main_track_builder: MainTrackBuilder::new(),
+		internal_buffer_size: NF,
+		backend_settings: VSettings { sample_rate: RATE },
+	})
+	.unwrap();
+	let mut renderer = manager.backend_mut().renderer.take().unwrap();
+	let _ = run_callback(&mut renderer, NF, 2);
+	let (tx, rx) = std::sync::mpsc::channel::<Renderer>();
+	tx.send(renderer).unwrap();
+	let aw: Worker<Renderer> = Worker::spawn("audio", move || rx.recv().unwrap());
+	aw.start(&["sto.refill"], |r| {
+		let res = run_callback(r, NF, 2);
+		json!({"out": res.out, "panicked": res.panicked.is_some()})
+	});
+	let mut st = aw.wait();
+	let mut passed = 1;
+	while passed < n && matches!(st, Status::Parked(_)) {
+		st = aw.resume();
+		passed += 1;
+	}
+	let parked = matches!(st, Status::Parked(_));
+	let mut clock = manager.add_clock(ClockSpeed::TicksPerSecond(RATE as f64 / NF as f64)).unwrap();
+	clock.start();
+	let data = StaticSoundData {
+		sample_rate: RATE,
+		frames: coded_frames(200),
+		settings: StaticSoundSettings::new().start_time(StartTime::ClockTime(ClockTime { clock: clock.id(), ticks: 1, fraction: 0.0 })),
+		slice: None,
+	};
+	let h = manager.play(data).unwrap();
+	aw.ctl.set_sites(&[]);
+	let mut heard = false;
+	let mut panicked = false;
+	let mut look = |st: Status| match st {
+		Status::Done(v) => {
+			heard |= v["out"].as_array().map(|o| o.iter().any(|x| x.as_f64().unwrap_or(0.0) != 0.0)).unwrap_or(false);
+			panicked |= v["panicked"].as_bool().unwrap_or(false);
+		}
+		_ => panicked = true,
+	};
+	look(aw.finish());
+	for _ in 0..4 {
+		look(aw.call(|r| {
+			let res = run_callback(r, NF, 2);
+			json!({"out": res.out, "panicked": res.panicked.is_some()})
+		}));
+	}
+	if panicked {
+		t.ev(json!({"a": "panic", "who": "audio"}));
+	}
+	t.ev(json!({"a": "pk", "parked": parked, "heard": heard, "stopped": h.state() == kira::sound::PlaybackState::Stopped}));
+	t.ev(json!({"a": "end"}));
+	drop(clock);
+	aw.shutdown();
+}
+
 fn main() {
 	let args: Vec<String> = std::env::args().collect();
 	quiet_panics();
@@ -496,6 +560,8 @@ fn main() {
 	for sc in read_scenarios(&inp) {
 		if sc["mode"] == "tween" {
 			run_tween(&sc, &mut t);
+		} else if sc["mode"] == "pickup" {
+			run_pickup(&sc, &mut t);
 		} else if sc["mode"] == "sched" {
 			run_sched(&sc, &mut t);
 		} else if sc["mode"] == "cancel" {
